@@ -894,6 +894,58 @@ fn roundtrip(w: &W, fmt: Fmt) -> Verdict {
         Fmt::Bed => "C13.a-bed",
         Fmt::Gff(_) => "C13.b-gff-fields",
     };
+    // "parsed back" also means through any method of the Records iterators, not only next():
+    // 1 clean round trip in 8 gets an extra pass through count(), last() or nth()
+    if hashed.is_empty() && !eintr_on && wl.len() > 0 && w.chance(1, 8) {
+        w.probe("records_iterator_driven_through_methods");
+        let io = IoCfg::draw(w, false);
+        let style = w.draw(3);
+        let k = w.draw(wl.len() as u64) as usize;
+        let src = SimRead::new(w, data.clone(), io, "src");
+        w.set_budget(8 * data.len() as u64 + 1000);
+        let verdict: Result<(), (&'static str, String)> = match fmt {
+            Fmt::Bed => {
+                let mut rd = bed::Reader::new(src);
+                let mut it = rd.records();
+                match style {
+                    0 => {
+                        let n = it.count();
+                        if n == wl.len() { Ok(()) } else { Err(("C13.a-bed", format!("bed Records.count() = {}, {} records were written", n, wl.len()))) }
+                    }
+                    1 => match it.last() {
+                        Some(Ok(r)) => compare_item_bed(wl.len() - 1, &r, &wl),
+                        other => Err(("C13.a-bed", format!("bed Records.last() = {:?}", other.map(|x| x.map(|_| ()).map_err(|e| e.to_string())))))
+                    },
+                    _ => match it.nth(k) {
+                        Some(Ok(r)) => compare_item_bed(k, &r, &wl),
+                        other => Err(("C13.a-bed", format!("bed Records.nth({}) = {:?}", k, other.map(|x| x.map(|_| ()).map_err(|e| e.to_string())))))
+                    },
+                }
+            }
+            Fmt::Gff(d) => {
+                let mut rd = gff::Reader::new(src, d.ty());
+                let mut it = rd.records();
+                match style {
+                    0 => {
+                        let n = it.count();
+                        if n == wl.len() { Ok(()) } else { Err(("C13.b-gff-fields", format!("gff Records.count() = {}, {} records were written", n, wl.len()))) }
+                    }
+                    1 => match it.last() {
+                        Some(Ok(r)) => gff_compare(&r, &wl.gff[wl.len() - 1], &wl.gff_recs[wl.len() - 1]),
+                        other => Err(("C13.b-gff-fields", format!("gff Records.last() = {:?}", other.map(|x| x.map(|_| ()).map_err(|e| e.to_string())))))
+                    },
+                    _ => match it.nth(k) {
+                        Some(Ok(r)) => gff_compare(&r, &wl.gff[k], &wl.gff_recs[k]),
+                        other => Err(("C13.b-gff-fields", format!("gff Records.nth({}) = {:?}", k, other.map(|x| x.map(|_| ()).map_err(|e| e.to_string())))))
+                    },
+                }
+            }
+        };
+        w.set_budget(u64::MAX);
+        if let Err((c, m)) = verdict {
+            return fail(c, format!("second pass through an Iterator method other than next(): {}", m));
+        }
+    }
     if with_comments {
         // judged by the ordinary round-trip clauses on an image that contains comment lines
         w.probe("roundtrip_with_comment_lines");
@@ -1437,7 +1489,7 @@ pub fn property() -> Property {
         ],
         expected_probes: &[
             "multi_valued_attribute", "key_order_differs_from_insertion", "quoted_csv_field", "csv_field_or_line_split_across_reads",
-            "damage_bad_number", "damage_bad_phase", "damage_phase_in_u8_range", "damage_column_missing", "damage_column_added", "damage_trailing_tab", "damage_empty_column_inserted", "damage_bed_fewer_than_three_columns", "eintr_surfaced_by_reader", "many_records_regime", "related_fields_or_records", "all_partitions_sweep", "first_column_starts_with_hash", "field_with_tab_or_line_feed", "many_values_record", "damaged_line_follows_comment", "damaged_last_line_without_newline",
+            "damage_bad_number", "damage_bad_phase", "damage_phase_in_u8_range", "damage_column_missing", "damage_column_added", "damage_trailing_tab", "damage_empty_column_inserted", "damage_bed_fewer_than_three_columns", "eintr_surfaced_by_reader", "many_records_regime", "records_iterator_driven_through_methods", "related_fields_or_records", "all_partitions_sweep", "first_column_starts_with_hash", "field_with_tab_or_line_feed", "many_values_record", "damaged_line_follows_comment", "damaged_last_line_without_newline",
         ],
         quick_runs: 300_000,
         thorough_runs: 20_000_000,
